@@ -25,7 +25,8 @@ pub struct Case {
     pub guid: String,
 }
 
-pub const METHODS: &[&str] = &["GET", "POST", "PUT", "DELETE", "PATCH", "HEAD", "OPTIONS"];
+/// method tokens are case-sensitive and travel as spelled (RFC 9110 9.1): the lower- and mixed-case ones are extension methods
+pub const METHODS: &[&str] = &["GET", "POST", "PUT", "DELETE", "PATCH", "HEAD", "OPTIONS", "GET", "POST", "PUT", "get", "Patch", "m-search", "PROPFIND", "pOST"];
 pub const HNAMES: &[&str] = &[
     "metadata", "x-ms-version", "content-type", "accept", "user-agent", "x-a", "x-ab", "x-ms-client-request-id", "if-match", "x-ms-azure-host-authorization",
     "x-zz", "a",
@@ -153,7 +154,7 @@ pub fn case_from_words(w: &mut crate::words::Words, own: bool) -> Case {
     }
 }
 
-pub const RULE: &str = "generator: method x path (case flips, %xx) x query pieces from colliding pools (duplicate keys, exact duplicate pairs, valueless keys with and without '=', empty keys, keys that are prefixes of other keys so that key+value concatenations collide, mixed case, %xx) x header set (unique names, any case, values with surrounding blanks) x body (empty, binary, '\\n'-heavy, KB-sized) x random 32-byte key in either hex case x guid. oracle: (a) as_sig_input == independent canonical string (exact parameter multiset; either admissible order), every single-component change changes the string, header order/name-case/blank padding does not; (b) build_request's MAC == HMAC_ref(key, canon_ref(parts of the built request)) == compute_signature(as_sig_input(those parts)). non-trivial: >= 2 parameters or a valueless/duplicate/prefix-related/escaped/mixed-case one, or a header with surrounding blanks or upper-case name, or a body containing a line feed; distinct by hash of the case.";
+pub const RULE: &str = "generator: method (the usual ones, and extension tokens in lower / mixed case such as get, Patch, m-search: tokens are case-sensitive and reach the host as spelled) x path (case flips, %xx) x query pieces from colliding pools (duplicate keys, exact duplicate pairs, valueless keys with and without '=', empty keys, keys that are prefixes of other keys so that key+value concatenations collide, mixed case, %xx) x header set (unique names, any case, values with surrounding blanks) x body (empty, binary, '\\n'-heavy, KB-sized) x random 32-byte key in either hex case x guid. oracle: (a) as_sig_input == independent canonical string (exact parameter multiset; either admissible order), every single-component change changes the string, header order/name-case/blank padding does not; (b) build_request's MAC == HMAC_ref(key, canon_ref(parts of the built request)) == compute_signature(as_sig_input(those parts)). non-trivial: >= 2 parameters or a valueless/duplicate/prefix-related/escaped/mixed-case one, or a header with surrounding blanks or upper-case name, or a body containing a line feed; distinct by hash of the case.";
 
 fn target_of(c: &Case) -> String {
     match &c.query {
